@@ -312,14 +312,28 @@ class NnxProxy:
 
     def __init__(self, rec, labels, act_fns):
         self._rec, self._labels, self._act_fns = rec, labels, act_fns
+        self._online = None
 
     def __getattr__(self, name):
         return getattr(nnx, name)
 
     def cached_partial(self, f, *cached):
-        real = nnx.cached_partial(getattr(f, "_real", f), *cached)
         rec = self._rec
+        real = nnx.cached_partial(getattr(f, "_real", f), *cached)
         label = self._labels.get(getattr(f, "_real", f))
+        if label is not None and getattr(self, "_online", None):
+            # wiring (C05 / C06): the cached arguments are the ONLINE components the routine trains, its target
+            # parameters are separate objects
+            import inspect
+
+            names = list(inspect.signature(getattr(f, "_real", f)).parameters)
+            bound = dict(zip(names, cached))
+            for par, want in self._online.get(label, {}).items():
+                if bound.get(par) is not want:
+                    rec.bad(f"wiring.{label}.trains_the_online_component[{par}]", f"train_mrq binds parameter {par!r} of the {label} update to an object that is not the online component")
+            for x, y in (("q", "q_target"), ("encoder", "encoder_target")):
+                if x in bound and y in bound and bound[x] is bound[y]:
+                    rec.bad(f"wiring.{label}.target_is_a_separate_object[{y}]", f"{x} and {y} are the same object")
         if label is not None:
             def upd(*a, **k):
                 rec.on_update(label)
@@ -588,7 +602,10 @@ def build(routine, env, rec, cfg):
         info["online"].update(policy_with_encoder=st.policy_with_encoder, q=st.q)
         info["targets"].update(policy_with_encoder=pt, q=qt)
         labels = {mod.update_model_based_encoder: "encoder", mod.update_critic_and_policy: "critic-and-policy"}
-        patches.append((mod, "nnx", NnxProxy(rec, labels, None)))
+        proxy = NnxProxy(rec, labels, None)
+        proxy._online = {"encoder": {"encoder": st.policy_with_encoder.encoder},
+                         "critic-and-policy": {"q": st.q, "policy": st.policy_with_encoder.policy, "encoder": st.policy_with_encoder.encoder}}
+        patches.append((mod, "nnx", proxy))
         return fn, kw, patches, info
 
     if family == "pets":
@@ -820,7 +837,7 @@ def grid(routine, scen):
 FAMILIES = [
     ("post.accounting", "accounting"), ("post.budget", "budget"), ("step.pre.within_budget", "budget"), ("post.episodes", "episodes"),
     ("step.pre.episode_running", "typestate"), ("update.pre.warmup_met", "warmup"), ("store.pre.", "store"), ("act.pre.", "act"),
-    ("target.", "target"), ("no_uncaught_exception", "exception"), ("assess.pre.", "td7-release"), ("assess.every", "td7-release"), ("release.", "td7-release"), ("wiring.", "td7-release"),
+    ("target.", "target"), ("no_uncaught_exception", "exception"), ("assess.pre.", "td7-release"), ("assess.every", "td7-release"), ("release.", "td7-release"), ("wiring.online", "td7-release"), ("wiring.", "wiring"),
 ]
 
 
